@@ -227,7 +227,7 @@ struct Case {
     std::string subject, cls, kase;
     bool expect_handler{true};
     bool visible{true};  // bad cases: every watched byte must be unchanged when the handler runs
-    std::string files;   // '|'-separated fragments, one of which the reported file must contain
+    std::string files;   // '|'-separated fragments of the header(s) the check is expected in (informational)
     std::function<void(Ctx&)> body;
 };
 
@@ -306,7 +306,8 @@ inline std::string judge(Case const& c, Outcome const& o, bool died, int status)
         return s;
     }
     if (o.line <= 0 || !file_matches("", o.file)) { return "handler called without a tetl source location" + where; }
-    if (!file_matches(c.files, o.file)) { return cat("handler called from an unexpected header (expected ", c.files, ")", where); }
+    // c.files (the header the check is expected in) is informational only: the property asks for a tetl source
+    // location, not for a particular one - a check that an inner layer performs first is as good.
     if (o.san_at_handler != o.san_before) {
         return cat("the check comes too late: ", o.san_at_handler - o.san_before, " sanitizer report(s) before the handler ran", where);
     }
@@ -386,6 +387,7 @@ inline void run(mc::Reporter& r, Catalogue const& cat_)
         std::string const verdict = judge(c, o, died, status);
         if (!died && o.trap == int(mc::Trap::assert_fired)) {
             sites.insert(cat(o.file, ":", o.line));
+            if (c.expect_handler && !file_matches(c.files, o.file)) { r.count("handler_in_other_header"); }
             r.outcome(mc::hash_str(cat(o.file, ":", o.line, "|", c.subject)));
             if (c.expect_handler && verdict.empty()) { r.count("handler_stopped_violation"); }
         } else {
